@@ -38,7 +38,7 @@ func c06Pos(layout int) ([]*decl.PosArg, string) {
 	return nil, ""
 }
 
-func c06Decl(mask int, layout int, onB bool) *decl.Decl {
+func c06Decl(mask int, layout int, onB bool, cmdRequired bool) *decl.Decl {
 	req := func(i int) string {
 		if mask&(1<<uint(i)) != 0 {
 			return c06Truthy[i%3]
@@ -65,16 +65,21 @@ func c06Decl(mask int, layout int, onB bool) *decl.Decl {
 	} else {
 		top.Pos, top.PosRequired = pos, preq
 	}
-	return (&decl.Decl{Top: top}).Finish()
+	if cmdRequired {
+		// a command is mandatory at both levels: a missing required option must still be reported as such
+		top.SubOptional, a.SubOptional = false, false
+	}
+	return (&decl.Decl{Top: top, Options: flags.PassDoubleDash}).Finish()
 }
 
-var c06Units = [][]string{{"-p"}, {"--ptwo=v"}, {"-P", "v"}, {"a"}, {"-q"}, {"--atwo", "v"}, {"b"}, {"-r"}, {"c"}, {"-t"}, {"-pq"}, {"w"}, {"x"}}
+var c06Units = [][]string{{"-p"}, {"--ptwo=v"}, {"-P", "v"}, {"a"}, {"-q"}, {"--atwo", "v"}, {"b"}, {"-r"}, {"c"}, {"-t"}, {"-pq"}, {"w"}, {"x"}, {"--"}}
 
 func init() {
 	cache := map[string]*decl.Decl{}
 	body := func(c *explore.Ctx) {
 		mask := c.Choose(64)
 		lay := c.Deviate(13) // 0 = none; 1..6 on b; 7..12 on the parser
+		cmdReq := c.Deviate(2) == 1
 		api := c.Bool()
 		layout, onB := 0, false
 		if lay >= 1 && lay <= 6 {
@@ -91,13 +96,13 @@ func init() {
 		for i := 0; i < n; i++ {
 			argv = append(argv, c06Units[c.Choose(len(c06Units))]...)
 		}
-		key := fmt.Sprintf("m%d/l%d", mask, lay)
+		key := fmt.Sprintf("m%d/l%d/%v", mask, lay, cmdReq)
 		d := cache[key]
 		if d == nil {
 			if len(cache) > 100 {
 				cache = map[string]*decl.Decl{}
 			}
-			d = c06Decl(mask, layout, onB)
+			d = c06Decl(mask, layout, onB, cmdReq)
 			cache[key] = d
 		}
 		c.Describe(func() interface{} {
@@ -170,7 +175,7 @@ func init() {
 		DevBound:   func(bool) int { return 1 },
 		Rule: "tree parser -> a -> b, sibling c, 6 options; all 64 subsets marked required (spellings yes/true/1, the others unmarked or marked false/no/0) x positional layouts " +
 			"{none, 2 scalars struct-required, per-field required, rest required 2, 1-2, 0-1, optional} on b or on the parser x {tags, API} x every sequence of <= 3 (quick) / <= 4 (thorough) units " +
-			"supplying options by short, long=, separate and cluster spellings, command words and plain words; oracle = CLM missing set: ErrRequired iff something on the active chain is missing, " +
+			"supplying options by short, long=, separate and cluster spellings, command words, plain words and the -- terminator (PassDoubleDash set; words after it still count for the positional constraints); one more deviation makes subcommands mandatory at both inner levels (a missing required option is still ErrRequired, not ErrCommandRequired); oracle = CLM missing set: ErrRequired iff something on the active chain is missing, " +
 			"message names every missing item and none that is supplied or belongs to an unselected command; nothing executed",
 		Assumptions:  []string{"required options carry no default/env here (whether a default supplies a required option is not settled by the statement)", "markers are long option names / positional names chosen so that none is a substring of another"},
 		RequiredHits: []string{"clean", "required-fault|options", "required-fault|positionals"},
